@@ -511,6 +511,7 @@ def check(facts, rep, tier, cfg):
     import whomay
     whomay.check(facts, rep, "C03.S7", "C03")
     whomay.check_new_statics(facts, rep, "C03.S7", "C03")
+    whomay.check_new_trait_methods(facts, rep, "C03.S7", "C03")
 
 
 def top_roles(node):
